@@ -379,6 +379,9 @@ def load_octree_for_query(
 
     satisfying_nodes = []
     nodes_to_load: List[OctreeNode] = [root_node]
+    # Locations of the hierarchy pages loaded by this call. In a valid file,
+    # a page is referenced once and describes the node that references it.
+    loaded_pages = set()
     while nodes_to_load:
         current_node = nodes_to_load.pop()
         current_node.bounds = current_node.key.bounds(root_bounds)
@@ -400,10 +403,22 @@ def load_octree_for_query(
 
         # get the info of the node
         if entry.point_count == -1:
+            page_location = (entry.offset, entry.byte_size)
+            if page_location in loaded_pages:
+                raise LaspyException(
+                    f"Invalid COPC hierarchy: the page at offset {entry.offset} "
+                    f"is referenced again by {current_node.key}"
+                )
+            loaded_pages.add(page_location)
             source.seek(entry.offset)
             page_bytes = source.read(entry.byte_size)
             page = HierarchyPage.from_bytes(page_bytes)
             hierarchy_page.entries.update(page.entries)
+            if hierarchy_page.entries[current_node.key].point_count == -1:
+                raise LaspyException(
+                    f"Invalid COPC hierarchy: the page at offset {entry.offset} "
+                    f"does not describe {current_node.key}"
+                )
             nodes_to_load.insert(0, current_node)
             continue
         elif entry.point_count >= 0:
